@@ -66,6 +66,11 @@ NOTES = {
     "C12-d": "plan `late_wait2`: a motion started before open_run and waited for inside the run",
     "C13-c": "not caught: see the text above the table",
     "C23-d": "subs_wrapper given the same callable twice",
+    # round 3 (fresh agents, one change per remaining property)
+    "C17-e": "a normalizer that refuses the run by raising",
+    "C35-e": "legacy data continuing across 2-4 Resources (which exposed defect N-12); patch rebased by hand onto fix a6cc92a",
+    "C36-e": "a gap and an overlap of equal size in one concatenation",
+    "C42-e": "a later subscriber raising on the RunStart",
 }
 
 
